@@ -95,6 +95,19 @@ func report(c *rig.Ctx, f rig.Failure) {
 	c.Fail(f)
 }
 
+// inconclusive: a wall-clock wait ran out. Never a failure of any kind: the case is counted and noted, the run goes on.
+var inconclusiveNoted = map[string]bool{}
+
+func inconclusive(c *rig.Ctx, stream, why string) bool {
+	lastClass = ""
+	c.Count("inconclusive:" + stream)
+	if !inconclusiveNoted[stream] {
+		inconclusiveNoted[stream] = true
+		c.Note("%s: a case was inconclusive (%s)", stream, why)
+	}
+	return true
+}
+
 func must(err error) {
 	if err != nil {
 		fmt.Fprintln(os.Stderr, err)
